@@ -110,6 +110,27 @@ def cleanupBorsh (env : Env) (ty : AcctType) (op : CleanOp) (who : Who) (tgt : K
   | op, .cached (some f) => runOp env ty.W op f tgt (ser s)
 
 
+/-! ## The context cache (`context.rs` 85-103)
+
+`set_funder` / `set_recipient` are `Option::replace`: a later call OVERWRITES an earlier one;
+`get_funder` / `get_recipient` return what is stored (no fall-back between the two slots). -/
+
+structure Cache where
+  funder : Option Funder := none
+  recipient : Option Funder := none
+deriving DecidableEq, Repr
+
+def Cache.setFunder (c : Cache) (f : Funder) : Cache := { c with funder := some f }
+def Cache.setRecipient (c : Cache) (r : Funder) : Cache := { c with recipient := some r }
+
+/-- The cached form of a cleanup argument (`NormalizeRent(())`, …): which slot it reads. -/
+def Cache.who (c : Cache) (op : CleanOp) : Who :=
+  match op with
+  | .normalize => .cached c.funder
+  | .receive => .cached c.funder
+  | .refund => .cached c.recipient
+  | .close => .cached c.recipient
+
 /-! ## A derived account set that caches BOTH a funder and a recipient
 
 `struct S { #[validate(funder)] funder: Signer<Mut<AccountInfo>>, #[validate(recipient)] recipient:
